@@ -26,6 +26,8 @@ func init() {
 var c11Alphabet = []string{"a", "n", "t", "\\", "\"", " ", "\n", "\t", "x"}
 var c11Extra = []string{"r", "f", "\r", "\f", "é", "and", "\\\\", "\"\"", "'", "%", "世",
 	// characters with an ASCII look-alike or no width: a literal must denote them as they are
+	// keywords and punctuation of the filter language inside a literal are just characters
+	"o", "not", "NOT ", "in", "or", " and ", "null", "true", "contains", "(", ")", "[", "]", ",", "=", "!",
 	"\u00a0", "\u202f", "\u201c", "\u201d", "\u2018", "\uff02", "\uff3c", "\u200b", "\ufeff", "e\u0301", "A", "N"}
 
 // c11Confusable maps each character that has an ASCII look-alike (or no width) to it
@@ -69,6 +71,28 @@ func c11IsAscii(s string) bool {
 		}
 	}
 	return true
+}
+
+// c11Neighbour returns a string that a normalising front end would identify with s
+func c11Neighbour(s string, r *rng) string {
+	switch r.intn(5) {
+	case 0:
+		return strings.ReplaceAll(s, " ", "  ")
+	case 1:
+		return strings.Join(strings.Fields(s), " ")
+	case 2:
+		return " " + s
+	case 3:
+		return s + " "
+	default:
+		if c11IsAscii(s) {
+			if u := strings.ToUpper(s); u != s {
+				return u
+			}
+			return strings.ToLower(s)
+		}
+		return strings.ReplaceAll(s, " ", "\t")
+	}
 }
 
 func c11PickOp(r *rng, s string) string {
@@ -128,6 +152,25 @@ func c11Emit(out *bufio.Writer, s string, r *rng) {
 				fmt.Fprintf(out, " %s", toWire(f))
 			}
 			out.WriteByte('\n')
+		}
+		// two neighbouring literals in sequence on one store: texts that differ only where a normalising
+		// front end (blank collapsing, trimming, case folding) would identify them
+		if s2 := c11Neighbour(s, r); s2 != s && s2 != "" {
+			if !seen[s2] {
+				vals = append(vals, s2)
+			}
+			op := c11PickOp(r, s+s2)
+			a, b := s, s2
+			if r.chance(1, 2) {
+				a, b = s2, s
+			}
+			if a != "" {
+				fmt.Fprintf(out, "c %s %s %s %s %s", op, toWire(c11Escape(a, r, true)), toWire(a), toWire(c11Escape(b, r, true)), toWire(b))
+				for _, f := range vals {
+					fmt.Fprintf(out, " %s", toWire(f))
+				}
+				out.WriteByte('\n')
+			}
 		}
 	}
 }
@@ -214,7 +257,7 @@ func c11Exec(line string) string {
 			}
 		}
 		return b.String()
-	case "b":
+	case "b", "c":
 		return c11ExecBolt(f)
 	}
 	return "bad-case"
